@@ -17,7 +17,7 @@ import (
 	"fmt"
 	"go/token"
 	"go/types"
-	"sort"
+	"strings"
 
 	"golang.org/x/tools/go/ssa"
 )
@@ -52,16 +52,22 @@ type Interp struct {
 	// PureFn: opaque callees whose result is a function of the argument terms.
 	PureFn  func(fn *ssa.Function) bool
 	globals map[*ssa.Global]*Obj
+	// PureInvoke: method calls on unknown interface values are modelled as
+	// pure functions of receiver and arguments (getter assumption).
+	PureInvoke bool
 	// hooks for rule-specific modelling
 	MapLookup  func(f *frame, x *ssa.Lookup, st *State) Val
 	Intrinsic  func(fn *ssa.Function, args []Val, st *State) (Val, bool)
 	InvokeHook func(recv Val, m *types.Func, args []Val, rt types.Type, st *State) (Val, bool)
 	curPos  token.Pos
 	curFn   *ssa.Function
+	initMode bool
 }
 
 func newInterp(P *Program) *Interp {
-	return &Interp{P: P, lazy: map[string]*Obj{}, MaxDepth: 8, MaxSteps: 400000, globals: map[*ssa.Global]*Obj{}}
+	in := &Interp{P: P, lazy: map[string]*Obj{}, MaxDepth: 8, MaxSteps: 400000, globals: map[*ssa.Global]*Obj{}}
+	in.OpaqueFn = defaultOpaque
+	return in
 }
 
 func (in *Interp) fail(format string, a ...interface{}) {
@@ -113,6 +119,7 @@ type frame struct {
 	live  map[int]bool     // block was reached
 	rets  []retArrival
 	loops map[int]map[int]bool // header -> body set
+	loopExt map[int]map[int]bool // header -> body plus terminal exit subtrees
 	rpo   []*ssa.BasicBlock
 	rpoIx map[int]int
 	panicIf Bit
@@ -125,6 +132,7 @@ type retArrival struct {
 	blk  *ssa.BasicBlock
 	vals []Val
 	st   *State
+	w    Bit // condition of reaching this return, from function entry
 }
 
 func rpoOrder(fn *ssa.Function) []*ssa.BasicBlock {
@@ -178,6 +186,29 @@ func (f *frame) findLoops() {
 	}
 }
 
+func (f *frame) computeLoopExt() {
+	f.loopExt = map[int]map[int]bool{}
+	for h, body := range f.loops {
+		ext := map[int]bool{}
+		for i := range body {
+			ext[i] = true
+		}
+		for i := range body {
+			for _, y := range f.fn.Blocks[i].Succs {
+				if body[y.Index] || ext[y.Index] {
+					continue
+				}
+				if sub := f.terminalSubtree(y, body); sub != nil {
+					for k := range sub {
+						ext[k] = true
+					}
+				}
+			}
+		}
+		f.loopExt[h] = ext
+	}
+}
+
 // Call analyses fn with the given arguments in state st (which it may
 // update) and returns the merged result value.
 func (in *Interp) Call(fn *ssa.Function, args []Val, bindings []Val, st *State) (Val, *State) {
@@ -202,6 +233,7 @@ func (in *Interp) Call(fn *ssa.Function, args []Val, bindings []Val, st *State) 
 		f.rpoIx[b.Index] = i
 	}
 	f.findLoops()
+	f.computeLoopExt()
 	in.stack = append(in.stack, fn)
 	savedFn, savedPos := in.curFn, in.curPos
 	in.curFn = fn
@@ -344,11 +376,11 @@ func (f *frame) runRegion(region map[int]bool, header int, entry *State, hdrPred
 // inInnerLoop: b belongs to a loop in this region (other than the one being
 // iterated) without being its header: it is evaluated by runLoop, not here.
 func (f *frame) inInnerLoop(b *ssa.BasicBlock, header int, region map[int]bool) bool {
-	for h, body := range f.loops {
+	for h := range f.loops {
 		if h == header || h == b.Index || !region[h] {
 			continue
 		}
-		if body[b.Index] {
+		if f.loopExt[h][b.Index] {
 			return true
 		}
 	}
@@ -369,6 +401,7 @@ func (f *frame) joinAt(b *ssa.BasicBlock, preds []*ssa.BasicBlock, isHeaderIter 
 	for i, p := range preds {
 		ws[i] = band(f.chain(p, d), f.bc[edgeKey{p.Index, b.Index}])
 	}
+	wsFold := simplifyChain(ws)
 	if !isHeaderIter || f.local[b.Index] == nil {
 		if len(preds) == 1 && preds[0] == d {
 			f.local[b.Index] = ws[0]
@@ -401,7 +434,7 @@ func (f *frame) joinAt(b *ssa.BasicBlock, preds []*ssa.BasicBlock, isHeaderIter 
 			if v == nil {
 				v = ev
 			} else {
-				v = in.muxVal(ws[i], ev, v)
+				v = in.muxVal(wsFold[i], ev, v)
 			}
 		}
 		phiVals = append(phiVals, v)
@@ -426,7 +459,7 @@ func (f *frame) joinAt(b *ssa.BasicBlock, preds []*ssa.BasicBlock, isHeaderIter 
 	}
 	st := f.out[preds[len(preds)-1].Index].clone()
 	for i := len(preds) - 2; i >= 0; i-- {
-		st = in.muxState(ws[i], f.out[preds[i].Index], st)
+		st = in.muxState(wsFold[i], f.out[preds[i].Index], st)
 	}
 	return st
 }
@@ -450,18 +483,24 @@ func (f *frame) runLoop(h *ssa.BasicBlock, body map[int]bool, entry *State) {
 		}
 		return
 	}
+	// extended body: exit targets reached only from the loop whose dominated
+	// subtree ends in return/panic ("terminal exits", e.g. `return x` inside a
+	// search loop) are evaluated with the iteration that reaches them.
+	ext := f.loopExt[h.Index]
 	hdrState := f.joinAt(h, outside, false)
 	hdrPreds := outside
+	nonconstIters := 0
 	for iter := 0; ; iter++ {
 		if in.Fail != "" {
 			return
 		}
-		if iter > 100000 {
-			in.fail("loop at block %d of %s: iteration bound exceeded", h.Index, f.fn)
+		if iter > 100000 || nonconstIters > 64 {
+			in.curPos = firstPos(h)
+			in.fail("loop at block %d of %s: trip count is not a compile-time constant (gave up after %d iterations)", h.Index, f.fn, iter)
 			return
 		}
 		// reset per-iteration facts of body blocks (except header's local)
-		for i := range body {
+		for i := range ext {
 			if i != h.Index {
 				delete(f.local, i)
 			}
@@ -474,14 +513,14 @@ func (f *frame) runLoop(h *ssa.BasicBlock, body map[int]bool, entry *State) {
 			}
 		}
 		f.hdrPreds = hdrPreds
-		f.runRegion(body, h.Index, hdrState, nil)
+		f.runRegion(ext, h.Index, hdrState, nil)
 		if in.Fail != "" {
 			return
 		}
 		// live edges leaving the iteration
 		var back []*ssa.BasicBlock
+		backW := U.B0
 		nexit := 0
-		nonconst := false
 		for i := range body {
 			if !f.live[i] {
 				continue
@@ -492,48 +531,70 @@ func (f *frame) runLoop(h *ssa.BasicBlock, body map[int]bool, entry *State) {
 				if c == nil || (isConst(c) && !c.c) {
 					continue
 				}
-				if s != h && body[s.Index] {
+				if s != h && ext[s.Index] {
 					continue // edge inside the iteration
 				}
 				w := band(f.chain(blk, h), c)
-				if !isConst(w) {
-					nonconst = true
+				if isConst(w) && !w.c {
+					continue
 				}
 				if s == h {
 					back = append(back, blk)
+					backW = bxor(backW, w)
 				} else {
 					nexit++
 				}
 			}
 		}
-		if !nonconst && len(back)+nexit == 0 {
-			return // the iteration ended in return/panic
+		if len(back) == 0 {
+			return // left through exits / returns of this (last) iteration
 		}
-		if nonconst || len(back)+nexit != 1 {
+		if nexit > 0 {
+			// the loop may be left towards the code after it in a non-final
+			// iteration: the join after the loop would need every iteration's
+			// state, which this domain does not keep
 			in.curPos = firstPos(h)
-			dbg := ""
-			for i := range body {
-				if !f.live[i] {
-					continue
-				}
-				blk := f.fn.Blocks[i]
-				for _, s := range blk.Succs {
-					c := f.bc[edgeKey{i, s.Index}]
-					if c == nil || (isConst(c) && !c.c) {
-						continue
-					}
-					dbg += fmt.Sprintf(" %d->%d:%s/chain=%s", i, s.Index, c, f.chain(blk, h))
-				}
-			}
-			in.fail("loop at block %d of %s is not constant-unrollable (iteration %d; back=%d exits=%d%s)", h.Index, f.fn, iter, len(back), nexit, dbg)
+			in.fail("loop at block %d of %s can exit to the following code from a non-final iteration (iteration %d)", h.Index, f.fn, iter)
 			return
 		}
-		if nexit == 1 {
-			return
+		if !isConst(backW) {
+			nonconstIters++
 		}
 		hdrState = f.joinAt(h, back, true)
 		hdrPreds = back
+		f.local[h.Index] = band(f.local[h.Index], backW)
 	}
+}
+
+// terminalSubtree returns the blocks dominated by y if y is entered only from
+// the loop body and every path from y stays in that subtree until it returns
+// or panics; nil otherwise.
+func (f *frame) terminalSubtree(y *ssa.BasicBlock, body map[int]bool) map[int]bool {
+	for _, p := range y.Preds {
+		if !body[p.Index] {
+			return nil
+		}
+	}
+	sub := map[int]bool{}
+	var collect func(b *ssa.BasicBlock)
+	collect = func(b *ssa.BasicBlock) {
+		sub[b.Index] = true
+		for _, d := range b.Dominees() {
+			collect(d)
+		}
+	}
+	collect(y)
+	for i := range sub {
+		if _, isLoop := f.loops[i]; isLoop {
+			return nil
+		}
+		for _, s := range f.fn.Blocks[i].Succs {
+			if !sub[s.Index] {
+				return nil
+			}
+		}
+	}
+	return sub
 }
 
 func firstPos(b *ssa.BasicBlock) token.Pos {
@@ -551,13 +612,12 @@ func (f *frame) mergeReturns(st *State) (Val, *State) {
 		// every path panics
 		return nil, st
 	}
-	entry := f.fn.Blocks[0]
-	sort.SliceStable(f.rets, func(i, j int) bool { return f.rpoIx[f.rets[i].blk.Index] < f.rpoIx[f.rets[j].blk.Index] })
 	n := len(f.rets)
 	ws := make([]Bit, n)
 	for i, r := range f.rets {
-		ws[i] = f.chain(r.blk, entry)
+		ws[i] = r.w
 	}
+	ws = simplifyChain(ws)
 	last := f.rets[n-1]
 	vals := append([]Val(nil), last.vals...)
 	out := last.st
@@ -637,6 +697,12 @@ func sameVal(a, b Val) bool {
 	case *FuncV:
 		y, ok := b.(*FuncV)
 		return ok && x.Fn == y.Fn && len(x.Bindings) == 0 && len(y.Bindings) == 0
+	case *MapV:
+		y, ok := b.(*MapV)
+		return ok && x.Obj == y.Obj
+	case *OpaqueV:
+		y, ok := b.(*OpaqueV)
+		return ok && x.Why == y.Why
 	}
 	return false
 }
@@ -764,7 +830,7 @@ func (in *Interp) muxState(c Bit, t, f *State) *State {
 // leafType finds the type of the leaf at path inside o.
 func (in *Interp) leafType(o *Obj, path string) types.Type {
 	t := o.T
-	if path == "" {
+	if path == "" || o.Kind == "map" {
 		return t
 	}
 	parts := splitPath(path)
@@ -894,4 +960,69 @@ func refineBV(v *BV, r map[*Source]*BV) *BV {
 		}
 	}
 	return &BV{W: v.W, Signed: v.Signed, Bits: k.Bits}
+}
+
+// defaultOpaque: only gots code and the byte-order helpers of encoding/binary
+// are interpreted; every other standard-library callee stays an opaque call.
+func defaultOpaque(fn *ssa.Function) bool {
+	pk := fn.Pkg
+	if pk == nil && fn.Parent() != nil {
+		pk = fn.Parent().Pkg
+	}
+	if pk == nil {
+		// synthetic wrappers / instantiations: judge by the receiver's package
+		if recv := fn.Signature.Recv(); recv != nil {
+			if n, ok := derefNamed(recv.Type()); ok && n.Obj().Pkg() != nil {
+				p := n.Obj().Pkg().Path()
+				return !(p == modPath || strings.HasPrefix(p, modPath+"/") || p == "encoding/binary")
+			}
+		}
+		return true
+	}
+	p := pk.Pkg.Path()
+	if p == modPath || strings.HasPrefix(p, modPath+"/") {
+		return false
+	}
+	if p == "encoding/binary" {
+		n := fn.Name()
+		return !(strings.HasPrefix(n, "Uint") || strings.HasPrefix(n, "PutUint"))
+	}
+	return true
+}
+
+func derefNamed(t types.Type) (*types.Named, bool) {
+	if p, ok := t.(*types.Pointer); ok {
+		t = p.Elem()
+	}
+	n, ok := t.(*types.Named)
+	return n, ok
+}
+
+// simplifyChain prepares mutually exclusive conditions w0, w1, … for the fold
+// mux(w0, v0, mux(w1, v1, …)): inside the else-branch of w0..w(i-1) those are
+// known false, so conjuncts of wi that are implied by their negations are
+// dropped (¬c0∧c1 becomes c1 after c0). The fold's meaning is unchanged.
+func simplifyChain(ws []Bit) []Bit {
+	out := make([]Bit, len(ws))
+	known := map[int32]bool{} // ids of bits known true
+	for i, w := range ws {
+		fs := factors(w)
+		if len(known) > 0 && !w.top && len(fs) > 1 {
+			r := U.B1
+			for _, f := range fs {
+				if known[f.id] {
+					continue
+				}
+				r = band(r, f)
+			}
+			w = r
+		} else if len(known) > 0 && known[w.id] {
+			w = U.B1
+		}
+		out[i] = w
+		if !w.top {
+			known[bnot(w).id] = true
+		}
+	}
+	return out
 }
